@@ -105,7 +105,7 @@ def main():
                 conts = [[] for _ in range(ncont)]
                 for i, ch in enumerate(chunks):
                     conts[i % ncont if i < ncont else rng.randrange(ncont)].append(ch)
-                dirs = [os.path.join(tmp, 'a'), os.path.join(tmp, 'a', 'sub'), os.path.join(tmp, 'b')]
+                dirs = [os.path.join(tmp, 'a'), os.path.join(tmp, 'a', 'sub'), os.path.join(tmp, 'b'), os.path.join(tmp, 'b', '.cluster', 'results')]
                 for dd in dirs:
                     os.makedirs(dd, exist_ok=True)
                 paths = []
